@@ -104,10 +104,28 @@ class RefClient:
         return out
 
 
+def _membership(container, name, where):
+    """`name in container` must agree with what the listing says (both are public API of the mirror)."""
+    from harness.core import Failure
+
+    if hasattr(type(container), "__contains__"):
+        if not (name in container):
+            raise Failure("mirror:membership-disagrees-with-listing", f"{where}: {name!r} is listed but `in` says no")
+        if "\x00no-such-name" in container:
+            raise Failure("mirror:membership-disagrees-with-listing", f"{where}: `in` is true for a name that is not listed")
+    for getter in ("get_device", "get_vector", "get_element"):
+        if hasattr(container, getter):
+            if getattr(container, getter)(name) is not container[name]:
+                raise Failure("mirror:getter-disagrees-with-index", f"{where}: {getter}({name!r}) is not [{name!r}]")
+            if getattr(container, getter)("\x00no-such-name") is not None:
+                raise Failure("mirror:getter-disagrees-with-index", f"{where}: {getter} returns something for a name that is not listed")
+
+
 def library_view(client):
     """The same view read from an indi.client.BaseClient through its public API."""
     out = {}
     for dn in list(client.list_devices()):
+        _membership(client, dn, "client")
         dev = client[dn]
         names = dev.list_vectors()
         if not names:
@@ -117,7 +135,9 @@ def library_view(client):
             v = dev[pn]
             kind = type(v).__name__[: -len("Vector")]
             els = {}
+            _membership(dev, pn, f"{dn}")
             for en in v.list_elements():
+                _membership(v, en, f"{dn}.{pn}")
                 e = v[en]
                 val = e.value
                 if kind == "BLOB":
